@@ -77,6 +77,7 @@ struct RunCtl {
   Outcome out;
   std::vector<uint8_t> event_picks;   // recorded choices so that a second (differential) run repeats them
   bool replaying_picks = false; size_t pick_pos = 0;
+  int trait_blocking = 2; bool trait_sends_done = true; bool trait_affine = false;   // static traits of the whole expression
   uint32_t pick(uint32_t n) {
     if (n <= 1) return 0;
     if (replaying_picks) { uint32_t v = pick_pos < event_picks.size() ? event_picks[pick_pos] : 0; pick_pos++; return v % n; }
@@ -113,6 +114,8 @@ struct Env {
   }
   sr::Leaf<T> leaf(int id) const { return {id}; }
   sr::Leaf<void> leafv(int id) const { return {id}; }
+  sr::Leaf<T, 0 /*always_inline*/, true> leaf_ai(int id) const { return {id}; }
+  sr::Leaf<T, 2 /*maybe*/, false> leaf_nd(int id) const { return {id}; }
   T val(int nid) const { return T(sr::mix(7, (uint64_t)nid)); }
   T lvw_state(int nid) const { return T(sr::mix(13, (uint64_t)nid)); }
   sr::HSched sched(int ctx) const { return sr::HSched{ctx}; }
@@ -202,6 +205,9 @@ void run_shape_impl(const ShapeDesc& sd, RunCtl& ctl, Make make) {
   rs.use_inplace = C::inplace;
   begin_run(sd, ctl, rs);
   using Snd = decltype(make(Env<C>{}));
+  ctl.trait_blocking = (int)unifex::sender_traits<Snd>::blocking();
+  ctl.trait_sends_done = unifex::sender_traits<Snd>::sends_done;
+  ctl.trait_affine = unifex::sender_traits<Snd>::is_always_scheduler_affine;
   using Op = unifex::connect_result_t<Snd, Root<C>>;
   void* buf = std::malloc(sizeof(Op) + 64);
   std::memset(buf, ctl.plan.poison, sizeof(Op) + 64);
